@@ -21,7 +21,11 @@ def diff_impl_model(cases, profiles=("release",), group=""):
     first = None
     first_model = None
     for prof in profiles:
-        impl = C.run_impl(cases, prof)
+        try:
+            impl = C.run_impl(cases, prof)
+        except RuntimeError:
+            # the implementation process died (abort / segfault): survive it and attribute it to the cases
+            impl = C.run_impl_crashsafe(cases, prof)
         model = model_for_profile(cases, prof)
         if first is None:
             first, first_model = impl, model
@@ -32,7 +36,13 @@ def diff_impl_model(cases, profiles=("release",), group=""):
 
 
 def all_profiles_impl(cases, profiles):
-    return {p: C.run_impl(cases, p) for p in profiles}
+    out = {}
+    for p in profiles:
+        try:
+            out[p] = C.run_impl(cases, p)
+        except RuntimeError:
+            out[p] = C.run_impl_crashsafe(cases, p)
+    return out
 
 
 def boundary_values(rng, extra=()):
